@@ -209,9 +209,16 @@ def evaluate(sc, cuts):
         return None, f"{type(e).__name__}: {e}"[:160]
 
 
-def build(adapter, cost_obj, via):
+def build(adapter, cost_obj, via, other_cost=None):
     from skchange.anomaly_scores import LocalAnomalyScore, Saving, to_local_anomaly_score, to_saving
     from skchange.change_scores import ChangeScore, to_change_score
+    if via == "set_params":
+        # the composition is first built around the same cost with ANOTHER parameter and then re-configured
+        # through the nested parameter: what it scores afterwards is defined by the cost its get_params() reports
+        sc = build(adapter, other_cost, False)
+        name = "baseline_cost" if adapter == "Saving" else "cost"
+        sc.set_params(**{f"{name}__param": cost_obj.param})
+        return sc
     if adapter == "ChangeScore":
         return to_change_score(cost_obj) if via else ChangeScore(cost_obj)
     if adapter == "Saving":
@@ -244,7 +251,13 @@ def check_identity(rec, adapter, c, kind, jparam, X, label, cuts, via=False):
     base_inp = {"check": "identity", "adapter": adapter, "cost": c["name"], "kind": kind, "param": jparam, "via": via, "X": X,
                 "table": c.get("table")}
     try:
-        sc = build(adapter, c["make"](jparam), via).fit(X)
+        other = None
+        if via == "set_params":
+            alt = [j for k2, j in c["params"] if k2 != kind and (j is not None or adapter != "Saving")]
+            if not alt:
+                return
+            other = c["make"](alt[0])
+        sc = build(adapter, c["make"](jparam), via, other).fit(X)
     except Exception as e:
         rec.violation(f"{adapter}:construct", f"{comp} with param kind {kind} cannot be constructed/fitted: {type(e).__name__}: {e}"[:300],
                       "C06.identity", dict(base_inp, cuts=[list(cuts[0])]))
@@ -297,7 +310,7 @@ def check_identity(rec, adapter, c, kind, jparam, X, label, cuts, via=False):
                  {"composition": comp, "param": jparam, "data": label, "cut": list(cut), "expected": v} if sum(cut) % 7 == 0 else None)
     if bad is not None:
         cut, v, g, e, cuts_used = bad
-        what = (f"{comp}[{kind}, param={jparam}]{' via to_*' if via else ''}.evaluate({list(cut)}) on n={len(X)},p={X.shape[1]} "
+        what = (f"{comp}[{kind}, param={jparam}]{' via to_*' if via is True else (' after set_params(<cost>__param=...)' if via else '')}.evaluate({list(cut)}) on n={len(X)},p={X.shape[1]} "
                 + (f"raised {e}" if e is not None else f"= {np.asarray(g).tolist()}")
                 + f" but the definition from the cost gives {np.asarray(v).tolist()}")
         rec.violation(key, what, "C06.identity", dict(base_inp, cuts=cuts_used, cut=list(cut)))
@@ -426,8 +439,10 @@ def run_matrix(rec, rng, label, X, family, tier):
         for kind, jparam in c["params"]:
             m = c["m"]
             c3, c2, c4 = cuts3(n, m), cuts2(n, m), cuts4(n, m)
-            for via in (False, True):
-                if via and kind not in ("optim", "scalar", "zero"):
+            for via in (False, True, "set_params"):
+                if via is True and kind not in ("optim", "scalar", "zero"):
+                    continue
+                if via == "set_params" and (n > 6 or c["name"] == "user:TableCost"):
                     continue
                 if c3:
                     check_identity(rec, "ChangeScore", c, kind, jparam, X, label, c3, via)
